@@ -3,7 +3,7 @@
 Two real endpoints with symbolic keepalive values, idle times, MRUs and segment sizes over the GLib
 stand-in's virtual clock; negotiation results, KEEPALIVE / idle-timeout behaviour against virtual time, and
 the segment-size clamp under adaptive sizing (controller output over-approximated by an arbitrary integer). '''
-from vf.engine import cur, blen, smin, is_sym
+from vf.engine import same_bytes, cur, blen, smin, is_sym
 from vf.oracle import rfc9174
 from gi.repository import GLib
 from checks.tcpcl_common import *
@@ -29,12 +29,13 @@ ASSUMPTIONS = [
     'no TLS',
 ]
 REQUIRED_CLASSES = {'all': ['keepalive-on', 'keepalive-off']}
+SMALL_LIMIT = 30000          # the slow-link case needs a segment larger than two 10240-octet chunks
 QUICK_VALIDATE = 4
 
 
 def cases(tier):
     out = [dict(kind='negotiate'), dict(kind='keepalive', traffic=0), dict(kind='keepalive', traffic=1),
-           dict(kind='keepalive', traffic=2),
+           dict(kind='keepalive', traffic=2), dict(kind='keepalive', traffic=3),
            dict(kind='idle', peer='silent'), dict(kind='idle', peer='alive'), dict(kind='idle', peer='trickle'),
            dict(kind='modulate', acks=2)]
     if tier == 'thorough':
@@ -67,7 +68,8 @@ def harness(case, tier):
     w = World(mkcfg('dtn://a/', keepalive_time=ka_a, idle_time=idle_a, segment_size_mru=mru_a,
                     segment_size_tx_initial=seg_a, **extra_a),
               mkcfg('dtn://b/', keepalive_time=ka_b, idle_time=0, segment_size_mru=mru_b))
-    w.a.CHUNK_SIZE = w.b.CHUNK_SIZE = BIG
+    if not (kind == 'keepalive' and case.get('traffic') == 3):
+        w.a.CHUNK_SIZE = w.b.CHUNK_SIZE = BIG
     ok = establish(w)
     c.prove(ok, 'established')
     if not ok:
@@ -123,6 +125,38 @@ def harness(case, tier):
             GLib.STATE.now_ms = dt
             w.ba.buf = w.ba.buf + rfc9174.encode(dict(kind='KEEPALIVE'))
             w.run(300)
+        elif case['traffic'] == 3:
+            # a slow link: the keepalive interval elapses while one large segment is still being written (the real
+            # 10240-octet chunking is in effect, the socket accepts 4096 octets at a time).  The KEEPALIVE must not
+            # disturb the segment on the wire.
+            ln = c.sym_int('len', 20000, 25000, size=True)
+            c.assume(ln <= w.a._send_segment_size)
+            data = c.sym_blob('bundle', ln)
+            w.sock_a.send_limit = 4096
+            w.a.send_bundle_fileobj(BytesIO(data))
+            st0 = w.steps
+            w.run(600, until=lambda: w.steps - st0 >= 6)     # a few steps only: most of the segment is still queued
+            src = w.advance_to_next_timer()
+            c.prove(src is not None, 'keepalive-timer-pending')
+            due = [s for s in w.enabled(timers=True) if s.kind == 'timeout' and w.owner(s) == 'A']
+            for s_ in due:
+                w.dispatch(s_)
+            w.sock_a.send_limit = None
+            w.run(600)
+            c.prove(not w.escaped(), 'no-callback-exception[slow-link]', detail=[repr(e) for (_s, e) in w.escaped()])
+            try:
+                ma, rest = rfc9174.decode_stream(w.ab.total)
+                kinds = [m['kind'] for m in ma]
+                c.prove(blen(rest) == 0 and kinds.count('XFER_SEGMENT') == 1, 'wire-stays-in-frame-with-keepalive-on-a-slow-link', detail=kinds)
+            except rfc9174.Malformed as err:
+                c.prove(False, 'wire-stays-in-frame-with-keepalive-on-a-slow-link', detail=str(err))
+            q = w.b.recv_bundle_get_queue()
+            c.prove(len(q) == 1, 'bundle-delivered-on-a-slow-link', detail=list(q))
+            if len(q) == 1:
+                got = w.b.recv_bundle_pop_data(q[0])
+                got = getattr(got, 'buf', got)
+                c.prove(same_bytes(got, data), 'bundle-intact-with-keepalive-on-a-slow-link', detail=dict(got=got))
+            return {'class': cls}
         n_exp = 3 if tier == 'quick' else 4
         sent_ka = {'A': 0, 'B': 0}
         for i in range(n_exp):
